@@ -28,6 +28,7 @@ fn column_defs() -> Vec<ColSpec> {
             v.push(n(ColSpec::new("C", Ty::Str(w))));
             v.push(n(ColSpec::new("C", Ty::Str(w)).enums(&["a", "bb", "\u{e9}"])));
             v.push(n(ColSpec::new("C", Ty::Str(w)).localizable()));
+            v.push(n(ColSpec::new("C", Ty::Str(w)).enums(&["ON ", " a", "b c", "A"])));
         }
         for cat in ALL_CATEGORIES {
             v.push(n(ColSpec::new("C", Ty::Str(0)).category(cat)));
@@ -80,7 +81,7 @@ fn values() -> Vec<Val> {
     }
     for s in [
         "", "a", "A", "9", "bb", "abc", "abcd", "abcde", "\u{e9}", "\u{e9}\u{e9}\u{e9}", "\u{e9}\u{e9}\u{e9}\u{e9}", "\u{1F600}", "a;b", "_x", "%x", "1.2", "1033", "-5", "x.y", "#x",
-        "{34AB5C53-9B30-4E14-AEF0-2C1C7BA826C0}", "{34ab5c53-9b30-4e14-aef0-2c1c7ba826c0}", "32768", "1,2", "A B",
+        "{34AB5C53-9B30-4E14-AEF0-2C1C7BA826C0}", "{34ab5c53-9b30-4e14-aef0-2c1c7ba826c0}", "32768", "1,2", "A B", "ON ", "ON", " a", "b c", "b", " A",
     ] {
         v.push(Val::s(s));
     }
@@ -97,7 +98,7 @@ fn tri_ok(t: Tri, got: bool) -> bool {
 
 type V = (String, String, serde_json::Value);
 
-fn gate_case(col: &ColSpec, vals: &[Val]) -> (u64, u64, Vec<V>) {
+fn gate_case(col: &ColSpec, vals: &[Val], reopen: bool) -> (u64, u64, Vec<V>) {
     let mut out: Vec<V> = Vec::new();
     let mut n = 0u64;
     let mut accepted = 0u64;
@@ -106,7 +107,8 @@ fn gate_case(col: &ColSpec, vals: &[Val]) -> (u64, u64, Vec<V>) {
         Err(e) => return (0, 0, vec![("machinery".into(), e, json!({}))]),
     };
     let cols = vec![ColSpec::new("K", Ty::I16).key(), col.clone()];
-    let rep = |v: &Val| json!({"kind":"c07-gate","col":col,"value":v});
+    let rep = |v: &Val| json!({"kind":"c07-gate","col":col,"value":v,"reopen":reopen});
+    let sfx = if reopen { ":after-reopen" } else { "" };
     match h.apply(&Op::CreateTable { name: "G".into(), cols }) {
         Outcome::Ok => {}
         o => return (0, 0, vec![(format!("create-table-refused:{:?}", col.category), format!("column {:?}: {:?}", col, o), json!({"col":col}))]),
@@ -119,6 +121,14 @@ fn gate_case(col: &ColSpec, vals: &[Val]) -> (u64, u64, Vec<V>) {
         have_base = h.apply(&Op::Insert { table: "G".into(), rows: vec![vec![Val::Int(1), b.clone()]] }).is_ok();
         if !have_base {
             out.push((format!("gate:insert-refuses-valid:{}", col_class(col)), format!("column {:?} refuses {} which the reference accepts", col, b.show()), rep(b)));
+        }
+    }
+    if reopen {
+        // the column as the library rebuilds it from the saved catalog tables
+        // must gate the same values
+        match h.apply(&Op::Reopen) {
+            Outcome::Ok => {}
+            o => return (0, 0, vec![(format!("gate:reopen-fails:{}", col_class(col)), format!("column {:?}: save and reopen: {:?}", col, o), json!({"col":col}))]),
         }
     }
     let mut k = 10;
@@ -149,8 +159,8 @@ fn gate_case(col: &ColSpec, vals: &[Val]) -> (u64, u64, Vec<V>) {
             o => {
                 if o.is_ok() != pred {
                     out.push((
-                        format!("gate:insert-vs-validator:{}:{}", col_class(col), val_class(v)),
-                        format!("column {:?}: insert of {} returned {:?} but is_valid_value says {}", col, v.show(), o, pred),
+                        format!("gate:insert-vs-validator:{}:{}{}", col_class(col), val_class(v), sfx),
+                        format!("column {:?}{}: insert of {} returned {:?} but is_valid_value says {}", col, sfx, v.show(), o, pred),
                         rep(v),
                     ));
                 }
@@ -169,8 +179,8 @@ fn gate_case(col: &ColSpec, vals: &[Val]) -> (u64, u64, Vec<V>) {
                 o => {
                     if o.is_ok() != pred {
                         out.push((
-                            format!("gate:update-vs-validator:{}:{}", col_class(col), val_class(v)),
-                            format!("column {:?}: update to {} returned {:?} but is_valid_value says {}", col, v.show(), o, pred),
+                            format!("gate:update-vs-validator:{}:{}{}", col_class(col), val_class(v), sfx),
+                            format!("column {:?}{}: update to {} returned {:?} but is_valid_value says {}", col, sfx, v.show(), o, pred),
                             rep(v),
                         ));
                     }
@@ -331,7 +341,8 @@ pub fn run(tier: Tier) -> i32 {
     // ---- (a) gate equivalence -------------------------------------------
     let cols = column_defs();
     let vals = values();
-    let res: Vec<(u64, u64, Vec<V>)> = cols.par_iter().map(|c| gate_case(c, &vals)).collect();
+    let gate_jobs: Vec<(&ColSpec, bool)> = cols.iter().flat_map(|c| [(c, false), (c, true)]).collect();
+    let res: Vec<(u64, u64, Vec<V>)> = gate_jobs.par_iter().map(|(c, reopen)| gate_case(c, &vals, *reopen)).collect();
     let mut gate_n = 0u64;
     let mut gate_acc = 0u64;
     for (n, a, vs) in res {
@@ -514,7 +525,7 @@ pub fn run(tier: Tier) -> i32 {
     rep.set("category_strings_unspecified", class_counts[2]);
     rep.set("library_built_values", built_n);
     rep.set("exhaustive", true);
-    rep.set("rule", format!("(a) {} column definitions x {} values: insert Ok <=> update Ok <=> is_valid_value <=> three-valued reference; arities 0..33 against 1, 2, 32 columns; (b) every string of length <= {} over each category's adversarial alphabet (all 26 categories) plus boundary strings, and all single (thorough: and double) substitutions, deletions and insertions of a valid GUID; (c) Value::from(Uuid) for every nibble position x 16 values, Value::from(&[Language]) for all lists of length 1..3 over 5 codes. distinct_nontrivial = strings the grammar must accept + accepted (column, value) pairs", cols.len(), vals.len(), maxlen));
+    rep.set("rule", format!("(a) {} column definitions x {} values, on the table as created and again after save and reopen: insert Ok <=> update Ok <=> is_valid_value <=> three-valued reference; arities 0..33 against 1, 2, 32 columns; (b) every string of length <= {} over each category's adversarial alphabet (all 26 categories) plus boundary strings, and all single (thorough: and double) substitutions, deletions and insertions of a valid GUID; (c) Value::from(Uuid) for every nibble position x 16 values, Value::from(&[Language]) for all lists of length 1..3 over 5 codes. distinct_nontrivial = strings the grammar must accept + accepted (column, value) pairs", cols.len(), vals.len(), maxlen));
     let _ = BTreeSet::<u8>::new();
     rep.sample(json!({"column": cols[3], "value": vals[7]}));
     rep.sample(json!({"category": "Version", "string": "1.65536", "reference": format!("{:?}", category_accepts("Version", "1.65536"))}));
@@ -526,7 +537,7 @@ pub fn replay(doc: &serde_json::Value) {
         "c07-gate" => {
             let col: ColSpec = serde_json::from_value(doc["col"].clone()).unwrap();
             let v: Val = serde_json::from_value(doc["value"].clone()).unwrap();
-            let (_, _, vs) = gate_case(&col, &[v]);
+            let (_, _, vs) = gate_case(&col, &[v], doc["reopen"].as_bool().unwrap_or(false));
             for (s, d, _) in vs {
                 println!("{}: {}", s, d);
             }
